@@ -5,6 +5,7 @@ import (
 	"fmt"
 	"os"
 
+	"verif/bt/drive"
 	"verif/common"
 )
 
@@ -35,6 +36,7 @@ func main() {
 		os.Exit(3)
 	}
 	run := common.NewRun(os.Args[1], c.level, os.Args[2:])
+	drive.OnHang = func() { hangVerdict(run) }
 	c.fn(run)
 	run.Finish()
 }
